@@ -142,16 +142,17 @@ def outputOps (s : St) (bn txi oi : Nat) (tx : Tx) (o : Output) : List Op :=
 def enum {α} (l : List α) : List (Nat × α) := (List.range l.length).zip l
 
 /-- the batch of `filter_block`: transactions in order; `inBlock` = earlier transactions of
-this block (`txs` map of the implementation); a previous transaction is looked up in the store
-first, then in `inBlock` -/
+this block (`txs` map of the implementation); a previous transaction is looked up in `inBlock`
+first, then in the store (the position of a transaction of this block is the one in this block,
+whatever record a fetch left in the store) -/
 def blockOps (s : St) (b : Block) : List Op :=
   let rec go (txi : Nat) (inBlock : List (Nat × TxRec)) : List Tx → List Op
     | [] => []
     | tx :: rest =>
       let ins := (enum tx.inputs).flatMap (fun (ii, i) =>
-        let prev := match lookup s.txs i.tx with
+        let prev := match lookup inBlock i.tx with
           | some r => some r
-          | none => lookup inBlock i.tx
+          | none => lookup s.txs i.tx
         inputOps s b.number txi ii tx i prev)
       let outs := (enum tx.outputs).flatMap (fun (oi, o) => outputOps s b.number txi oi tx o)
       ins ++ outs ++ go (txi + 1) (put inBlock tx.hash ⟨b.number, txi, tx⟩) rest
